@@ -45,6 +45,13 @@ def sites(tree):
             out.append(("retnone", i, None))
         elif isinstance(n, ast.Subscript) and isinstance(n.slice, ast.Slice):
             out.append(("slice", i, None))
+        elif isinstance(n, ast.Continue):
+            out.append(("cont2break", i, None))
+        elif isinstance(n, ast.Break):
+            out.append(("break2cont", i, None))
+        if isinstance(n, ast.Compare) and len(n.ops) == 1 and isinstance(n.ops[0], (ast.Is, ast.IsNot)) and isinstance(n.comparators[0], ast.Constant) \
+                and n.comparators[0].value is None:
+            out.append(("none2falsy", i, None))
     return out
 
 
@@ -79,6 +86,16 @@ def mutate(src, kind, idx):
             for f, v in ast.iter_fields(p):
                 if isinstance(v, list) and n in v:
                     v[v.index(n)] = ast.Pass()
+    elif kind in ("cont2break", "break2cont", "none2falsy"):
+        new = ast.Break() if kind == "cont2break" else ast.Continue() if kind == "break2cont" else (
+            ast.UnaryOp(op=ast.Not(), operand=n.left) if isinstance(n.ops[0], ast.Is) else n.left)
+        for p in nodes:
+            for f, v in ast.iter_fields(p):
+                if v is n:
+                    setattr(p, f, new)
+                elif isinstance(v, list) and n in v:
+                    v[v.index(n)] = new
+        n = new
     elif kind == "retnone":
         n.value = ast.Constant(None)
     elif kind == "slice":
@@ -127,6 +144,7 @@ def main():
     ap.add_argument("--props", default=None)
     ap.add_argument("--jobs", type=int, default=14)
     ap.add_argument("--lines", default=None, help="restrict to a line range a-b of the ORIGINAL file")
+    ap.add_argument("--kinds", default=None, help="restrict to these mutation kinds (comma separated)")
     a = ap.parse_args()
     anchors = {}
     for l in open(VERIF / "properties.jsonl"):
@@ -142,6 +160,8 @@ def main():
         lo, hi = map(int, a.lines.split("-"))
         nodes = list(ast.walk(ast.parse(base)))
         ss = [s for s in ss if lo <= getattr(nodes[s[1]], "lineno", 0) <= hi]
+    if a.kinds:
+        ss = [s for s in ss if s[0] in a.kinds.split(",")]
     random.Random(a.seed).shuffle(ss)
     muts = []
     for kind, idx, _ in ss:
